@@ -3,6 +3,7 @@ package main
 import (
 	"fmt"
 	"go/token"
+	"sort"
 	"strings"
 
 	"golang.org/x/tools/go/ssa"
@@ -10,11 +11,179 @@ import (
 
 func init() {
 	register(&propDef{
-		id: "C39", run: runC39, minOblig: 16,
-		explanation: "Decides the internal-consistency gates of parseOpenSSHPrivateKey: a key is returned only (i) for NumKeys == 1, (ii) with matching check words — a mismatch (or undecodable block) maps to x509.IncorrectPasswordError when a cipher is named, (iii) behind checkOpenSSHKeyPadding == nil for the key's padding, (iv) behind the consistency test of its key type — RSA: bounds on N, P, Q, E, odd exponent >= 3 (evaluated) and rsa.PrivateKey.Validate() == nil; Ed25519: the key is re-derived with ed25519.NewKeyFromSeed from the stored seed and must equal the stored private key AND the stored public key (bytes.Equal edges); ECDSA: known curve, scalar below the group order, and ScalarBaseMult(D) equal to the stored point in both coordinates — and (v) behind the comparison of the public key stored outside the encrypted section with the parsed key's public key (bytes.Equal of the marshalled SSH public key with w.PubKey); the passphrase KDF rounds are bounded (<= 2048, evaluated) before bcrypt_pbkdf runs and only aes256-ctr / aes256-cbc are decrypted; writer and reader use the same struct types for the envelope and per-type records. NOT decided: ssh-keygen interoperability; that signatures verify (follows from the consistency checks plus the primitives).",
+		id: "C39", run: runC39, minOblig: 36,
+		explanation: "Decides the internal-consistency gates of parseOpenSSHPrivateKey on the call tree of the function (its same-package helpers and closures expanded in place; every value identified by the record field or library call it comes from, every check recognised in any equivalent form and wherever it is factored): a key is returned only (i) for NumKeys == 1, (ii) with matching check words — after a mismatch (or undecodable block) with a cipher named, every reachable return yields x509.IncorrectPasswordError, (iii) behind checkOpenSSHKeyPadding == nil, (iv) behind the consistency test of its key type — RSA: N <= 16384 bits, P, Q <= 8192 bits, E <= 24 bits, exponent >= 3 and odd (each bound read off the comparisons by evaluation, exactly that bound and no other test on those sizes; they also precede rsa.PrivateKey.Validate) and Validate() == nil; Ed25519: the key is re-derived with ed25519.NewKeyFromSeed from the first 32 bytes of the stored private key and must equal the stored private key AND the stored public key (bytes.Equal or an equivalent comparison), and the derived key is the one returned; ECDSA: scalar below the group order, and ScalarBaseMult(D) equal to the stored point in both coordinates — and (v) behind the comparison of the public key stored outside the encrypted section with the parsed key's marshalled SSH public key; key-type arms are separated by evaluating the key type comparisons; the passphrase KDF rounds are bounded (exactly <= 2048, evaluated) on every path to bcrypt_pbkdf.Key in the decrypt function; writer and reader use the same record struct types. NOT decided: ssh-keygen interoperability; that signatures verify (follows from the consistency checks plus the primitives); which ciphers the decrypt function accepts.",
 		assumptions: []string{"crypto/rsa Validate, crypto/ed25519 NewKeyFromSeed, elliptic ScalarBaseMult contracts"},
 	})
-	tech("C39", "must-cross CFG rules per key-type arm (arms separated by evaluating the type switch), finite-domain evaluation of numeric bounds, writer/reader struct-type agreement")
+	tech("C39", "interprocedural must-cross rules per key-type arm (arms separated by evaluating the type comparisons; gates recognised by role and lifted through helpers that establish them), finite-domain evaluation of numeric bounds, writer/reader struct-type agreement")
+}
+
+const (
+	c39Env  = "openSSHEncryptedPrivateKey"
+	c39Inn  = "openSSHPrivateKey"
+	c39RSA  = "openSSHRSAPrivateKey"
+	c39Ed   = "openSSHEd25519PrivateKey"
+	c39ECDS = "openSSHECDSAPrivateKey"
+)
+
+type c39Run struct {
+	c       *Ctx
+	k       *c39K
+	f       *ssa.Function
+	acc     []ssa.Instruction
+	typeCmp []*ssa.BinOp // comparisons of the decoded key type with a constant name
+	armCuts map[string]edgeSet
+}
+
+// constStrCmp: v is `x == "const"` / `x != "const"`; returns x and the name.
+func c39ConstStrCmp(v ssa.Value) (bo *ssa.BinOp, x ssa.Value, name string, ok bool) {
+	bo, ok = v.(*ssa.BinOp)
+	if !ok || (bo.Op != token.EQL && bo.Op != token.NEQ) {
+		return nil, nil, "", false
+	}
+	if s, isC := constString(bo.Y); isC {
+		return bo, bo.X, s, true
+	}
+	if s, isC := constString(bo.X); isC {
+		return bo, bo.Y, s, true
+	}
+	return nil, nil, "", false
+}
+
+// armCut: the edges contradicted by "the decoded key type is arm".
+func (r *c39Run) armCut(arm string) edgeSet {
+	if cut, ok := r.armCuts[arm]; ok {
+		return cut
+	}
+	e := newEnv()
+	for _, bo := range r.typeCmp {
+		_, _, s, _ := c39ConstStrCmp(bo)
+		if (s == arm) == (bo.Op == token.EQL) {
+			e.bind(bo, 1)
+		} else {
+			e.bind(bo, 0)
+		}
+	}
+	cut := r.k.cutsUnder(e)
+	r.armCuts[arm] = cut
+	return cut
+}
+
+// cross: every path from the entry of parseOpenSSHPrivateKey (helpers expanded
+// in place, restricted to one key-type arm when arm != "") to a target crosses
+// a pass edge.
+func (r *c39Run) cross(rule, name, arm string, pass []edge, targets []ssa.Instruction, what string) bool {
+	c := r.c
+	if len(pass) == 0 {
+		c.fail(rule, name, r.f, "gate not found: "+what+" (no branch in "+fnName(r.f)+" or the code it runs decides it)")
+		return false
+	}
+	if len(targets) == 0 {
+		c.fail(rule, name, r.f, "no target instruction found for "+what+" (rule anchor lost)")
+		return false
+	}
+	cut := edgeSet{}
+	if arm != "" {
+		for e := range r.armCut(arm) {
+			cut[e] = true
+		}
+	}
+	cut.addAll(pass)
+	if t := r.k.reachable(cut, targets); t != nil {
+		if arm != "" {
+			c.fail(rule, name, t, "a "+arm+" key can be returned without passing "+what)
+		} else {
+			c.fail(rule, name, t, "reachable without passing "+what)
+		}
+		return false
+	}
+	if arm != "" {
+		c.ok(rule, name, r.f, "every returned "+arm+" key passed "+what)
+	} else {
+		c.ok(rule, name, targets[0], fmt.Sprintf("every path to the %d target(s) passes %s (%d pass edge(s), helpers expanded in place)", len(targets), what, len(pass)))
+	}
+	return true
+}
+
+func (r *c39Run) loadOf(typ, fld string) func(ssa.Value) bool {
+	return func(v ssa.Value) bool {
+		if _, isAddr := r.k.res(v).(*ssa.FieldAddr); isAddr {
+			return false
+		}
+		return r.k.isField(v, typ, fld)
+	}
+}
+
+// callOn: v is the result of method name (e.g. "(*math/big.Int).BitLen")
+// applied to record field typ.fld.
+func (r *c39Run) callOn(typ, fld string, names ...string) func(ssa.Value) bool {
+	m := nameIs(names...)
+	return func(v ssa.Value) bool {
+		call, ok := r.k.res(v).(*ssa.Call)
+		if !ok || call.Call.IsInvoke() || len(call.Call.Args) == 0 || !m(short(calleeName(&call.Call))) {
+			return false
+		}
+		return r.k.isField(call.Call.Args[0], typ, fld)
+	}
+}
+
+type c39Bound struct {
+	name string
+	role func(ssa.Value) bool
+	dom  []int64
+	P    func(int64) bool
+	what string
+}
+
+// strays: the comparisons that depend on the role value (and constants only)
+// without being one of the specified predicates or its negation.
+func (r *c39Run) strays(role func(ssa.Value) bool, dom []int64, allowed []func(int64) bool) []c39Stray {
+	var out []c39Stray
+	r.k.each(func(in ssa.Instruction) {
+		var tab []bool
+		var v ssa.Value
+		switch x := in.(type) {
+		case *ssa.BinOp:
+			t, ok := c39Table(x, role, dom)
+			if !ok {
+				return
+			}
+			tab, v = t, x
+		case *ssa.Call:
+			t, _, ok := r.k.callTable(x, role, dom)
+			if !ok {
+				return
+			}
+			tab, v = t, x
+		default:
+			return
+		}
+		for _, P := range allowed {
+			t, f := c39Decides(tab, dom, P, true)
+			if t || f {
+				return
+			}
+		}
+		out = append(out, c39Stray{v, tab})
+	})
+	return out
+}
+
+type c39Stray struct {
+	v   ssa.Value
+	tab []bool
+}
+
+func c39TableStr(tab []bool, dom []int64) string {
+	var acc, rej []string
+	for i, d := range dom {
+		if tab[i] {
+			acc = append(acc, itoa(d))
+		} else {
+			rej = append(rej, itoa(d))
+		}
+	}
+	return "true for {" + strings.Join(acc, ",") + "}, false for {" + strings.Join(rej, ",") + "}"
 }
 
 func runC39(c *Ctx) {
@@ -22,381 +191,508 @@ func runC39(c *Ctx) {
 	if f == nil {
 		return
 	}
-	acc := acceptReturns(f, 1)
-	// arms: string comparisons pk1.Keytype == const
-	var cmps []*ssa.BinOp
-	allInstrs(f, func(in ssa.Instruction) {
-		if bo, ok := in.(*ssa.BinOp); ok && bo.Op == token.EQL {
-			if _, fld, _, okf := fieldOf(bo.X); okf && fld == "Keytype" {
-				if _, isC := constString(bo.Y); isC {
-					cmps = append(cmps, bo)
-				}
+	k := c.c39Universe(f)
+	r := &c39Run{c: c, k: k, f: f, armCuts: map[string]edgeSet{}}
+	r.acc = k.accepts(f, 1, 0)
+	acc := r.acc
+
+	// arms: comparisons of the decoded key type with a constant name, wherever
+	// the dispatch lives
+	names := map[string]bool{}
+	k.each(func(in ssa.Instruction) {
+		if v, ok := in.(ssa.Value); ok {
+			if bo, x, s, ok := c39ConstStrCmp(v); ok && r.loadOf(c39Inn, "Keytype")(x) {
+				r.typeCmp = append(r.typeCmp, bo)
+				names[s] = true
 			}
 		}
 	})
-	armCut := func(name string) edgeSet {
-		e := newEnv()
-		for _, bo := range cmps {
-			s, _ := constString(bo.Y)
-			if s == name {
-				e.bind(bo, 1)
-			} else {
-				e.bind(bo, 0)
-			}
+	arms := []string{"ssh-rsa", "ssh-ed25519", "ecdsa-sha2-nistp256", "ecdsa-sha2-nistp384", "ecdsa-sha2-nistp521"}
+	ecArms := arms[2:]
+	nArms := 0
+	for _, a := range arms {
+		if names[a] {
+			nArms++
 		}
-		return e.cuts(f)
 	}
+	c.check(nArms == len(arms), "C39.arms", "key type switch", f, fmt.Sprintf("%d key type names dispatched", len(names)), fmt.Sprintf("only %d of the %d key type names are compared with the decoded key type", nArms, len(arms)))
 	crossArm := func(rule, name, arm string, pass []edge, what string) {
-		if len(pass) == 0 {
-			c.fail(rule, name, f, "gate not found: "+what)
-			return
-		}
-		cut := armCut(arm)
-		cut.addAll(pass)
-		r := reach([]*ssa.BasicBlock{f.Blocks[0]}, cut)
-		for _, t := range acc {
-			if r[t.Block()] {
-				c.fail(rule, name, t, "a "+arm+" key can be returned without passing "+what)
-				return
-			}
-		}
-		c.ok(rule, name, f, "every returned "+arm+" key passed "+what)
+		r.cross(rule, name, arm, pass, acc, what)
 	}
-	c.check(len(cmps) >= 5, "C39.arms", "key type switch", f, fmt.Sprintf("%d key type names dispatched", len(cmps)), fmt.Sprintf("only %d key type comparisons found", len(cmps)))
+
 	// (i) NumKeys
-	var one []edge
-	for _, v := range loadsOfField(f, "openSSHEncryptedPrivateKey", "NumKeys") {
-		one = append(one, edgesImplying(v, []int64{0, 1, 2, 7}, func(d int64) bool { return d == 1 })...)
-	}
-	c.mustCross("C39.envelope", "NumKeys == 1", f, acc, one, "NumKeys == 1")
+	numKeys := k.gate(k.cmpGate(r.loadOf(c39Env, "NumKeys"), []int64{0, 1, 2, 7, 1<<32 - 1}, func(d int64) bool { return d == 1 }, false))
+	r.cross("C39.envelope", "NumKeys == 1", "", numKeys.passAll(), acc, "NumKeys == 1")
+
 	// (ii) check words
-	var chk *ssa.BinOp
-	allInstrs(f, func(in ssa.Instruction) {
-		if bo, ok := in.(*ssa.BinOp); ok && (bo.Op == token.NEQ || bo.Op == token.EQL) {
-			_, fx, _, okx := fieldOf(bo.X)
-			_, fy, _, oky := fieldOf(bo.Y)
-			if okx && oky && ((fx == "Check1" && fy == "Check2") || (fx == "Check2" && fy == "Check1")) {
-				chk = bo
-			}
+	isCheck := func(v ssa.Value, st c39St) bool {
+		bo, ok := v.(*ssa.BinOp)
+		if !ok || (bo.Op != token.NEQ && bo.Op != token.EQL) {
+			return false
 		}
-	})
-	if chk == nil {
+		c1, c2 := r.loadOf(c39Inn, "Check1"), r.loadOf(c39Inn, "Check2")
+		if !((c1(bo.X) && c2(bo.Y)) || (c2(bo.X) && c1(bo.Y))) {
+			return false
+		}
+		return (bo.Op == token.EQL && st == c39True) || (bo.Op == token.NEQ && st == c39False)
+	}
+	words := k.gate(isCheck)
+	wordSites := words.sites()
+	if len(wordSites) == 0 {
 		c.fail("C39.check-words", "Check1 == Check2", f, "the check words are not compared")
 	} else {
-		eq, _ := boolEdges(chk, chk.Op == token.EQL)
-		c.mustCross("C39.check-words", "Check1 == Check2", f, acc, eq, "Check1 == Check2")
-		// mismatch with a cipher -> IncorrectPasswordError
+		matchPass := words.passAll()
+		r.cross("C39.check-words", "Check1 == Check2", "", matchPass, acc, "Check1 == Check2")
+		// mismatch with a cipher -> IncorrectPasswordError: from the place where
+		// the words are compared, with the match edges cut and "a cipher is named"
+		// assumed, every return of the root that is still reachable carries
+		// x509.IncorrectPasswordError.
 		e := newEnv()
-		if chk.Op == token.NEQ {
-			e.bind(chk, 1)
-		} else {
-			e.bind(chk, 0)
-		}
-		allInstrs(f, func(in ssa.Instruction) {
-			if bo, ok := in.(*ssa.BinOp); ok && (bo.Op == token.NEQ || bo.Op == token.EQL) {
-				if _, fld, _, okf := fieldOf(bo.X); okf && fld == "CipherName" {
-					if s, isC := constString(bo.Y); isC && s == "none" {
-						if bo.Op == token.NEQ {
-							e.bind(bo, 1)
-						} else {
-							e.bind(bo, 0)
-						}
+		k.each(func(in ssa.Instruction) {
+			if v, ok := in.(ssa.Value); ok {
+				if bo, x, s, ok := c39ConstStrCmp(v); ok && s == "none" && r.loadOf(c39Env, "CipherName")(x) {
+					if bo.Op == token.NEQ {
+						e.bind(bo, 1)
+					} else {
+						e.bind(bo, 0)
 					}
 				}
 			}
 		})
-		cut := e.cuts(f)
-		r := reachAfter(chk, cut)
-		okPw := false
-		onlyPw := true
-		for _, ret := range returnsOf(f) {
-			if !r[ret.Block()] {
+		cut := k.cutsUnder(e)
+		cut.addAll(matchPass)
+		okPw, onlyPw := false, true
+		var at poser = wordSites[0]
+		for _, w := range wordSites {
+			site := k.siteInRoot(w.(ssa.Instruction))
+			if site == nil {
+				onlyPw = false
 				continue
 			}
-			if accessPath(retVal(ret, 1)) == "IncorrectPasswordError" {
-				okPw = true
-			} else {
-				onlyPw = false
-			}
-		}
-		c.check(okPw && onlyPw, "C39.check-words", "wrong passphrase error", chk, "mismatching check words with a cipher yield x509.IncorrectPasswordError", "a wrong passphrase (check word mismatch on an encrypted key) does not yield x509.IncorrectPasswordError")
-	}
-	// (iii) padding in every arm
-	pad := callsNamed(f, "ssh.checkOpenSSHKeyPadding")
-	c.check(len(pad) == 3, "C39.padding", "padding checks", f, "one per key type", fmt.Sprintf("%d padding checks, expected 3", len(pad)))
-	// (v) envelope: closure comparing marshalled public key with w.PubKey
-	var envCalls []ssa.CallInstruction
-	var envFn *ssa.Function
-	allInstrs(f, func(in ssa.Instruction) {
-		call, ok := in.(*ssa.Call)
-		if !ok {
-			return
-		}
-		var target *ssa.Function
-		switch v := call.Call.Value.(type) {
-		case *ssa.MakeClosure:
-			target, _ = v.Fn.(*ssa.Function)
-		case *ssa.Function:
-			target = v
-		}
-		if target != nil && target.Parent() == f {
-			envCalls = append(envCalls, call)
-			envFn = target
-		}
-	})
-	envOK := false
-	if envFn != nil {
-		for _, ci := range callsNamed(envFn, "bytes.Equal") {
-			a := ci.Common().Args
-			isPub := func(v ssa.Value) bool {
-				p := accessPath(v)
-				return strings.HasSuffix(p, ".PubKey") || strings.HasSuffix(p, "w.PubKey")
-			}
-			isMarshal := func(v ssa.Value) bool {
-				call, ok := v.(*ssa.Call)
-				return ok && call.Call.IsInvoke() && call.Call.Method.Name() == "Marshal"
-			}
-			if (isPub(a[0]) && isMarshal(a[1])) || (isPub(a[1]) && isMarshal(a[0])) {
-				yes, _ := successEdges(ci.(*ssa.Call), 0, isTrue)
-				cut := edgeSet{}
-				cut.addAll(yes)
-				ok := len(yes) > 0
-				for _, t := range acceptReturns(envFn, 0) {
-					if pathFromEntry(t, cut) {
-						ok = false
+			for _, ret := range k.rootReturnsFrom(site.Block(), cut) {
+				for _, leaf := range k.leavesUnder(retVal(ret, 1), cut) {
+					if c39IsGlobal(leaf, "crypto/x509", "IncorrectPasswordError") {
+						okPw = true
+					} else {
+						onlyPw = false
+						at = ret
 					}
 				}
-				envOK = ok
 			}
 		}
+		c.check(okPw && onlyPw, "C39.check-words", "wrong passphrase error", at, "mismatching check words with a cipher yield x509.IncorrectPasswordError", "a wrong passphrase (check word mismatch on an encrypted key) does not yield x509.IncorrectPasswordError")
 	}
-	c.check(envOK, "C39.envelope", "outer public key comparison", envFn, "nil only when the parsed key's SSH public key equals the public key stored outside the encrypted section", "the public key stored outside the encrypted section is not compared with the parsed key")
-	envPass := callSuccess(envCalls, -1, isNil)
-	for _, arm := range []string{"ssh-rsa", "ssh-ed25519", "ecdsa-sha2-nistp256", "ecdsa-sha2-nistp384", "ecdsa-sha2-nistp521"} {
+
+	// (iii) padding in every arm
+	padding := k.gate(func(v ssa.Value, st c39St) bool {
+		call, ok := v.(*ssa.Call)
+		return ok && st == c39Nil && short(calleeName(&call.Call)) == "ssh.checkOpenSSHKeyPadding"
+	})
+	padPass := padding.passAll()
+	nPad := len(padding.sites())
+	c.check(nPad >= 1, "C39.padding", "padding checks", f, fmt.Sprintf("%d call(s) of checkOpenSSHKeyPadding on the way to a key", nPad), "checkOpenSSHKeyPadding is not called")
+
+	// (v) envelope: the marshalled public key of the parsed key is compared with
+	// the public key stored outside the encrypted section
+	isMarshal := func(v ssa.Value) bool {
+		call, ok := k.res(v).(*ssa.Call)
+		return ok && call.Call.IsInvoke() && call.Call.Method.Name() == "Marshal"
+	}
+	outerPub := r.loadOf(c39Env, "PubKey")
+	envelope := k.gate(func(v ssa.Value, st c39St) bool {
+		a, b, ok := c39EqTest(v, st)
+		return ok && ((isMarshal(a) && outerPub(b)) || (isMarshal(b) && outerPub(a)))
+	})
+	envSites := envelope.sites()
+	envOK := len(envSites) > 0
+	var envAt poser = f
+	for _, s := range envSites {
+		h := s.(ssa.Instruction).Parent()
+		envAt = h
+		if h != f && !envelope.summarises(h) {
+			envOK = false
+		}
+	}
+	c.check(envOK, "C39.envelope", "outer public key comparison", envAt, "nil only when the parsed key's SSH public key equals the public key stored outside the encrypted section", "the public key stored outside the encrypted section is not compared with the parsed key")
+	envPass := envelope.passAll()
+	for _, arm := range arms {
 		crossArm("C39.envelope", "outer public key, "+arm, arm, envPass, "the outer-public-key comparison")
-		crossArm("C39.padding", "padding, "+arm, arm, callSuccess(pad, -1, isNil), "checkOpenSSHKeyPadding == nil")
+		crossArm("C39.padding", "padding, "+arm, arm, padPass, "checkOpenSSHKeyPadding == nil")
 	}
+
 	// (iv) per type
-	crossArm("C39.consistency", "RSA Validate", "ssh-rsa", callSuccess(callsNamed(f, "(*crypto/rsa.PrivateKey).Validate"), -1, isNil), "rsa.PrivateKey.Validate() == nil")
-	// RSA numeric bounds
+	// RSA
 	{
-		var nB, pB, qB, eB, eV ssa.Value
-		for _, ci := range callsNamed(f, "(*math/big.Int).BitLen") {
-			_, fld, _, ok := fieldOf(ci.Common().Args[0])
-			if !ok {
-				continue
-			}
-			switch fld {
-			case "N":
-				nB = callValue(ci)
-			case "P":
-				pB = callValue(ci)
-			case "Q":
-				qB = callValue(ci)
-			case "E":
-				eB = callValue(ci)
-			}
+		validate := k.gate(func(v ssa.Value, st c39St) bool {
+			call, ok := v.(*ssa.Call)
+			return ok && st == c39Nil && short(calleeName(&call.Call)) == "(*crypto/rsa.PrivateKey).Validate"
+		})
+		crossArm("C39.consistency", "RSA Validate", "ssh-rsa", validate.passAll(), "rsa.PrivateKey.Validate() == nil")
+		// numeric bounds: they gate the key and the (expensive) Validate itself
+		targets := append([]ssa.Instruction{}, acc...)
+		for _, v := range validate.sites() {
+			targets = append(targets, v.(ssa.Instruction))
 		}
-		for _, ci := range callsNamed(f, "(*math/big.Int).Int64") {
-			eV = callValue(ci)
+		bitsDom := func(K int64) []int64 {
+			return []int64{0, 1, 2, 3, K - 1, K, K + 1, 2 * K, 2*K + 1, 1 << 20}
 		}
+		le := func(K int64) func(int64) bool { return func(d int64) bool { return d <= K } }
+		bitLen := "(*math/big.Int).BitLen"
+		eVal := r.callOn(c39RSA, "E", "(*math/big.Int).Int64", "(*math/big.Int).Uint64")
+		eDom := []int64{-65537, -3, -1, 0, 1, 2, 3, 4, 5, 6, 65537, 65538, 1<<24 - 1}
+		ge3 := func(d int64) bool { return d >= 3 }
+		odd := func(d int64) bool { return d&1 == 1 }
+		bounds := []c39Bound{
+			{"modulus <= 16384 bits", r.callOn(c39RSA, "N", bitLen), bitsDom(16384), le(16384), "N.BitLen() <= 16384"},
+			{"prime P <= 8192 bits", r.callOn(c39RSA, "P", bitLen), bitsDom(8192), le(8192), "P.BitLen() <= 8192"},
+			{"prime Q <= 8192 bits", r.callOn(c39RSA, "Q", bitLen), bitsDom(8192), le(8192), "Q.BitLen() <= 8192"},
+			{"exponent <= 24 bits", r.callOn(c39RSA, "E", bitLen), bitsDom(24), le(24), "E.BitLen() <= 24"},
+			{"exponent >= 3", eVal, eDom, ge3, "E >= 3"},
+			{"exponent odd", eVal, eDom, odd, "E odd"},
+		}
+		// the parity may also be read off the lowest bit: E.Bit(0) == 1
+		eBit0 := func(v ssa.Value) bool {
+			call, ok := k.res(v).(*ssa.Call)
+			if !ok || call.Call.IsInvoke() || len(call.Call.Args) != 2 || short(calleeName(&call.Call)) != "(*math/big.Int).Bit" {
+				return false
+			}
+			n, isC := constInt(call.Call.Args[1])
+			return isC && n == 0 && k.isField(call.Call.Args[0], c39RSA, "E")
+		}
+		for i, b := range bounds {
+			is := k.cmpGate(b.role, b.dom, b.P, true)
+			if i == len(bounds)-1 {
+				is = c39Or(is, k.cmpGate(eBit0, []int64{0, 1}, func(d int64) bool { return d == 1 }, true))
+			}
+			g := k.gate(is)
+			r.cross("C39.consistency", "RSA bounds: "+b.name, "ssh-rsa", g.passAll(), targets, b.what)
+		}
+		// no other test on those sizes (a stricter bound would reject keys that
+		// ssh-keygen writes)
 		bad := ""
-		if nB == nil || pB == nil || qB == nil || eB == nil || eV == nil {
-			bad = "RSA size reads not found"
-		} else {
-			var valid ssa.CallInstruction
-			for _, ci := range callsNamed(f, "(*crypto/rsa.PrivateKey).Validate") {
-				valid = ci
+		var at poser = f
+		for i, b := range bounds {
+			allowed := []func(int64) bool{b.P}
+			if i >= 4 {
+				allowed = []func(int64) bool{ge3, odd}
 			}
-			for _, tc := range []struct {
-				n, p, q, eb, ev int64
-				want            bool
-			}{
-				{2048, 1024, 1024, 17, 65537, true}, {16384, 8192, 8192, 24, 3, true}, {16385, 1024, 1024, 17, 65537, false},
-				{2048, 8193, 1024, 17, 65537, false}, {2048, 1024, 8193, 17, 65537, false}, {2048, 1024, 1024, 25, 65537, false},
-				{2048, 1024, 1024, 17, 2, false}, {2048, 1024, 1024, 17, 65538, false}, {2048, 1024, 1024, 2, 1, false},
-			} {
-				e := newEnv()
-				e.bind(nB, tc.n)
-				e.bind(pB, tc.p)
-				e.bind(qB, tc.q)
-				e.bind(eB, tc.eb)
-				e.bind(eV, tc.ev)
-				cut := e.cuts(f)
-				for k := range armCut("ssh-rsa") {
-					cut[k] = true
-				}
-				got := valid != nil && reachAfter(nB.(ssa.Instruction), cut)[valid.Block()]
-				if got != tc.want {
-					bad = fmt.Sprintf("N=%d P=%d Q=%d bits, E=%d (%d bits): key construction reached=%v, specification %v", tc.n, tc.p, tc.q, tc.ev, tc.eb, got, tc.want)
-				}
+			for _, s := range r.strays(b.role, b.dom, allowed) {
+				bad = fmt.Sprintf("the test at %s is not part of the specified bounds (%s): it is %s", c.posStr(s.v.Pos()), b.what, c39TableStr(s.tab, b.dom))
+				at = s.v
 			}
 		}
-		c.check(bad == "", "C39.consistency", "RSA bounds", f, "modulus <= 16384 bits, primes <= 8192 bits, exponent <= 24 bits, odd and >= 3", bad)
+		c.check(bad == "", "C39.consistency", "RSA bounds", at, "modulus <= 16384 bits, primes <= 8192 bits, exponent <= 24 bits, odd and >= 3; no other test on these sizes", bad)
 	}
 	// Ed25519
 	{
-		seed := callsNamed(f, "crypto/ed25519.NewKeyFromSeed")
-		okSeed := len(seed) == 1
-		var eqPriv, eqPub []edge
-		if okSeed {
-			_, fld, _, ok := fieldOf(sliceBase(seed[0].Common().Args[0]))
-			okSeed = ok && fld == "Priv"
-			derived := callValue(seed[0])
-			// the derived key may live in a local slot (its address is returned)
-			isDerived := func(v ssa.Value) bool {
-				v = stripConv(v)
-				if v == derived {
+		var seeds []ssa.Value
+		for _, call := range k.callsNamed("crypto/ed25519.NewKeyFromSeed") {
+			if len(call.Call.Args) != 1 {
+				continue
+			}
+			base, lo, hi := k.sliceOf(call.Call.Args[0])
+			if base != nil && k.isField(base, c39Ed, "Priv") && lo == 0 && hi == 32 {
+				seeds = append(seeds, call)
+			}
+		}
+		isDerived := func(v ssa.Value) bool {
+			v = k.res(v)
+			for _, s := range seeds {
+				if v == s {
 					return true
 				}
-				if u, ok := v.(*ssa.UnOp); ok && u.Op == token.MUL {
-					if al, ok := u.X.(*ssa.Alloc); ok {
-						for _, r := range *al.Referrers() {
-							if st, ok := r.(*ssa.Store); ok && st.Addr == ssa.Value(al) && stripConv(st.Val) == derived {
-								return true
-							}
-						}
+			}
+			return false
+		}
+		part := func(v ssa.Value, is func(ssa.Value) bool, wantLo int64, his ...int64) bool {
+			base, lo, hi := k.sliceOf(v)
+			if base == nil || !is(base) || lo != wantLo {
+				return false
+			}
+			for _, h := range his {
+				if hi == h {
+					return true
+				}
+			}
+			return false
+		}
+		storedPriv := func(v ssa.Value) bool { return k.isField(v, c39Ed, "Priv") }
+		storedPub := func(v ssa.Value) bool { return k.isField(v, c39Ed, "Pub") }
+		derivedPub := func(v ssa.Value) bool {
+			if part(v, isDerived, 32, -1, 64) {
+				return true
+			}
+			// derived.Public().(ed25519.PublicKey)
+			if ta, ok := k.res(v).(*ssa.TypeAssert); ok {
+				if call, ok := k.res(ta.X).(*ssa.Call); ok && !call.Call.IsInvoke() && short(calleeName(&call.Call)) == "(crypto/ed25519.PrivateKey).Public" {
+					return len(call.Call.Args) == 1 && isDerived(call.Call.Args[0])
+				}
+			}
+			return false
+		}
+		eqPriv := k.gate(func(v ssa.Value, st c39St) bool {
+			a, b, ok := c39EqTest(v, st)
+			if !ok {
+				return false
+			}
+			for _, p := range [][2]ssa.Value{{a, b}, {b, a}} {
+				if part(p[0], isDerived, 0, -1, 64) && part(p[1], storedPriv, 0, -1, 64) {
+					return true
+				}
+				if derivedPub(p[0]) && part(p[1], storedPriv, 32, -1, 64) {
+					return true
+				}
+			}
+			return false
+		})
+		eqPub := k.gate(func(v ssa.Value, st c39St) bool {
+			a, b, ok := c39EqTest(v, st)
+			if !ok {
+				return false
+			}
+			for _, p := range [][2]ssa.Value{{a, b}, {b, a}} {
+				if derivedPub(p[0]) && part(p[1], storedPub, 0, -1, 32) {
+					return true
+				}
+			}
+			return false
+		})
+		c.check(len(seeds) >= 1, "C39.consistency", "Ed25519 key derived from the stored seed", f, "ed25519.NewKeyFromSeed(key.Priv[:32])", "the Ed25519 key is not re-derived from the stored seed (the stored public half is trusted)")
+		crossArm("C39.consistency", "Ed25519 derived == stored private key", "ssh-ed25519", eqPriv.passAll(), "bytes.Equal(derived key, stored private key)")
+		crossArm("C39.consistency", "Ed25519 derived public == stored public key", "ssh-ed25519", eqPub.passAll(), "bytes.Equal(derived public half, stored public key)")
+		// the returned key is the derived one
+		okRet, nRet := len(seeds) >= 1, 0
+		var at poser = f
+		cut := r.armCut("ssh-ed25519")
+		for _, t := range acc {
+			if k.reachable(cut, []ssa.Instruction{t}) == nil {
+				continue
+			}
+			nRet++
+			for _, leaf := range k.leavesUnder(retVal(t.(*ssa.Return), 0), cut) {
+				good := isDerived(leaf)
+				if al, ok := leaf.(*ssa.Alloc); ok {
+					if s := c39SingleStore(al); s != nil && isDerived(s) {
+						good = true
+					}
+				}
+				if !good {
+					okRet = false
+					at = t
+				}
+			}
+		}
+		c.check(okRet && nRet > 0, "C39.consistency", "Ed25519 returned key", at, "the key returned is the one derived from the seed", "the Ed25519 key returned is not the key derived from the seed")
+	}
+	// ECDSA
+	{
+		isSBM := func(v ssa.Value, idx int) bool {
+			ex, ok := k.res(v).(*ssa.Extract)
+			if !ok || ex.Index != idx {
+				return false
+			}
+			call, ok := ex.Tuple.(*ssa.Call)
+			return ok && call.Call.IsInvoke() && call.Call.Method.Name() == "ScalarBaseMult"
+		}
+		isStored := func(v ssa.Value, idx int) bool {
+			v = k.res(v)
+			if ex, ok := v.(*ssa.Extract); ok && ex.Index == idx {
+				if call, ok := ex.Tuple.(*ssa.Call); ok && !call.Call.IsInvoke() {
+					n := short(calleeName(&call.Call))
+					if (n == "crypto/elliptic.Unmarshal" || n == "crypto/elliptic.UnmarshalCompressed") && len(call.Call.Args) == 2 {
+						return k.isField(call.Call.Args[1], c39ECDS, "Pub")
 					}
 				}
 				return false
 			}
-			for _, ci := range callsNamed(f, "bytes.Equal") {
-				a := ci.Common().Args
-				for _, pr := range [][2]ssa.Value{{a[0], a[1]}, {a[1], a[0]}} {
-					if !isDerived(sliceBase(stripConv(pr[0]))) && !isDerived(pr[0]) {
-						continue
-					}
-					_, fld, _, ok := fieldOf(sliceBase(pr[1]))
-					if !ok {
-						continue
-					}
-					y, _ := successEdges(ci.(*ssa.Call), 0, isTrue)
-					if fld == "Priv" {
-						if _, isSl := stripConv(pr[0]).(*ssa.Slice); !isSl {
-							eqPriv = append(eqPriv, y...)
-						}
-					}
-					if fld == "Pub" {
-						eqPub = append(eqPub, y...)
-					}
-				}
+			// the coordinate read back from the public key under construction
+			if _, fld, _, ok := fieldOf(v); ok {
+				return fld == []string{"X", "Y"}[idx]
 			}
+			return false
 		}
-		c.check(okSeed, "C39.consistency", "Ed25519 key derived from the stored seed", f, "ed25519.NewKeyFromSeed(key.Priv[:32])", "the Ed25519 key is not re-derived from the stored seed (the stored public half is trusted)")
-		crossArm("C39.consistency", "Ed25519 derived == stored private key", "ssh-ed25519", eqPriv, "bytes.Equal(derived key, stored private key)")
-		crossArm("C39.consistency", "Ed25519 derived public == stored public key", "ssh-ed25519", eqPub, "bytes.Equal(derived public half, stored public key)")
-		// the returned key is the derived one
-		okRet := false
-		if len(seed) == 1 {
-			for _, t := range acc {
-				v := retVal(t.(*ssa.Return), 0)
-				if mi, ok := v.(*ssa.MakeInterface); ok {
-					if al, ok := mi.X.(*ssa.Alloc); ok {
-						for _, r := range *al.Referrers() {
-							if st, ok := r.(*ssa.Store); ok && stripConv(st.Val) == callValue(seed[0]) {
-								okRet = true
-							}
-						}
-					}
+		cmpName := "(*math/big.Int).Cmp"
+		coord := func(idx int) *c39Gate {
+			return k.gate(c39CallCmpGate(func(call *ssa.Call) ([]int64, func(int64) bool, bool) {
+				if call.Call.IsInvoke() || short(calleeName(&call.Call)) != cmpName || len(call.Call.Args) != 2 {
+					return nil, nil, false
 				}
-			}
+				a, b := call.Call.Args[0], call.Call.Args[1]
+				if (isSBM(a, idx) && isStored(b, idx)) || (isSBM(b, idx) && isStored(a, idx)) {
+					return []int64{-1, 0, 1}, func(d int64) bool { return d == 0 }, true
+				}
+				return nil, nil, false
+			}))
 		}
-		c.check(okRet, "C39.consistency", "Ed25519 returned key", f, "the key returned is the one derived from the seed", "the Ed25519 key returned is not the key derived from the seed")
-	}
-	// ECDSA
-	{
-		sbm := calls(f, nameIs("invoke:(crypto/elliptic.Curve).ScalarBaseMult"))
-		var eqX []edge
+		isOrder := func(v ssa.Value) bool {
+			_, fld, _, ok := fieldOf(k.res(v))
+			return ok && fld == "N"
+		}
+		isD := r.loadOf(c39ECDS, "D")
+		scalar := k.gate(c39CallCmpGate(func(call *ssa.Call) ([]int64, func(int64) bool, bool) {
+			if call.Call.IsInvoke() || short(calleeName(&call.Call)) != cmpName || len(call.Call.Args) != 2 {
+				return nil, nil, false
+			}
+			a, b := call.Call.Args[0], call.Call.Args[1]
+			switch {
+			case isD(a) && isOrder(b):
+				return []int64{-1, 0, 1}, func(d int64) bool { return d < 0 }, true
+			case isD(b) && isOrder(a):
+				return []int64{-1, 0, 1}, func(d int64) bool { return d > 0 }, true
+			}
+			return nil, nil, false
+		}))
+		gx, gy := coord(0), coord(1)
+		px, py, ps := gx.passAll(), gy.passAll(), scalar.passAll()
 		nCmp := 0
-		if len(sbm) == 1 {
-			for _, v := range append(resultN(sbm[0].(*ssa.Call), 0), resultN(sbm[0].(*ssa.Call), 1)...) {
-				for _, r := range *v.Referrers() {
-					if call, ok := r.(*ssa.Call); ok && short(calleeName(&call.Call)) == "(*math/big.Int).Cmp" {
-						nCmp++
-						eqX = append(eqX, edgesImplying(call, []int64{-1, 0, 1}, func(d int64) bool { return d == 0 })...)
-					}
-				}
-			}
+		if len(gx.sites()) > 0 {
+			nCmp++
 		}
-		for _, arm := range []string{"ecdsa-sha2-nistp256", "ecdsa-sha2-nistp384", "ecdsa-sha2-nistp521"} {
-			c.check(nCmp == 2, "C39.consistency", "ECDSA both coordinates compared, "+arm, f, "X and Y of D·G are compared with the stored point", fmt.Sprintf("%d coordinate comparisons, expected 2", nCmp))
-			// each comparison individually
-			if len(sbm) == 1 {
-				for i, v := range append(resultN(sbm[0].(*ssa.Call), 0), resultN(sbm[0].(*ssa.Call), 1)...) {
-					var one []edge
-					for _, r := range *v.Referrers() {
-						if call, ok := r.(*ssa.Call); ok && short(calleeName(&call.Call)) == "(*math/big.Int).Cmp" {
-							one = append(one, edgesImplying(call, []int64{-1, 0, 1}, func(d int64) bool { return d == 0 })...)
-						}
-					}
-					crossArm("C39.consistency", fmt.Sprintf("ECDSA coordinate#%d, %s", i, arm), arm, one, "D·G coordinate == stored coordinate")
-				}
-			}
+		if len(gy.sites()) > 0 {
+			nCmp++
 		}
-		// scalar range
-		var lt []edge
-		for _, ci := range callsNamed(f, "(*math/big.Int).Cmp") {
-			if _, fld, _, ok := fieldOf(ci.Common().Args[0]); ok && fld == "D" {
-				lt = append(lt, edgesImplying(callValue(ci), []int64{-1, 0, 1}, func(d int64) bool { return d < 0 })...)
-			}
+		for _, arm := range ecArms {
+			c.check(nCmp == 2, "C39.consistency", "ECDSA both coordinates compared, "+arm, f, "X and Y of D·G are compared with the stored point", fmt.Sprintf("%d of the 2 coordinates of D·G compared with the stored point", nCmp))
+			crossArm("C39.consistency", "ECDSA coordinate#0, "+arm, arm, px, "D·G coordinate X == stored coordinate")
+			crossArm("C39.consistency", "ECDSA coordinate#1, "+arm, arm, py, "D·G coordinate Y == stored coordinate")
+			crossArm("C39.consistency", "ECDSA scalar < N, "+arm, arm, ps, "D < curve order")
 		}
-		crossArm("C39.consistency", "ECDSA scalar < N", "ecdsa-sha2-nistp256", lt, "D < curve order")
 	}
 	// KDF
-	var g *ssa.Function
-	if parent := c.fn("ssh", "passphraseProtectedOpenSSHKey"); parent != nil && len(parent.AnonFuncs) == 1 {
-		g = parent.AnonFuncs[0]
-	}
-	if g != nil {
-		kdf := callsNamed(g, "ssh/internal/bcrypt_pbkdf.Key")
-		bad := ""
-		if len(kdf) != 1 {
-			bad = "bcrypt_pbkdf.Key call not found"
-		} else {
-			for _, r := range []int64{0, 16, 2048, 2049, 1 << 31, 1<<32 - 1} {
-				e := newEnv()
-				e.bindPath(g, "opts.Rounds", r)
-				cut := e.cuts(g)
-				// from the Unmarshal onwards
-				got := false
-				for _, ci := range callsNamed(g, "ssh.Unmarshal") {
-					if reachAfter(ci, cut)[kdf[0].Block()] {
-						got = true
-					}
-				}
-				if got != (r <= 2048) {
-					bad = fmt.Sprintf("rounds=%d: KDF invoked=%v", r, got)
-				}
-			}
-		}
-		c.check(bad == "", "C39.kdf", "passphrase KDF rounds bound", g, "bcrypt_pbkdf runs only for rounds <= 2048", bad)
-	} else {
-		c.fail("anchor", "ssh.passphraseProtectedOpenSSHKey$1", nil, "decrypt closure not found")
-	}
+	c39KDF(c)
 	// writer/reader struct agreement
 	if w := c.fn("ssh", "marshalOpenSSHPrivateKey"); w != nil {
-		rs, ws := map[string]bool{}, map[string]bool{}
-		allInstrs(f, func(in ssa.Instruction) {
-			if al, ok := in.(*ssa.Alloc); ok {
-				if n := typeName(al.Type()); strings.HasPrefix(n, "openSSH") {
-					rs[n] = true
-				}
-			}
-		})
-		allInstrs(w, func(in ssa.Instruction) {
-			if al, ok := in.(*ssa.Alloc); ok {
-				if n := typeName(al.Type()); strings.HasPrefix(n, "openSSH") {
-					ws[n] = true
-				}
-			}
-		})
+		rs, ws := k.recordTypes("openSSH"), c.c39Universe(w).recordTypes("openSSH")
 		var missing []string
 		for n := range rs {
 			if !ws[n] {
 				missing = append(missing, n)
 			}
 		}
+		sort.Strings(missing)
 		c.check(len(missing) == 0 && len(rs) >= 5, "C39.layout", "reader/writer record types", w, fmt.Sprintf("both use the same %d record struct types", len(rs)), fmt.Sprintf("record types read but not written with the same struct: %v", missing))
+	}
+}
+
+// c39KDF: in the decrypt function handed out by passphraseProtectedOpenSSHKey
+// (the function itself, its closures and their helpers), bcrypt_pbkdf.Key runs
+// only behind "decoded round count <= 2048", and that is the only test on the
+// round count.
+func c39KDF(c *Ctx) {
+	parent := c.fn("ssh", "passphraseProtectedOpenSSHKey")
+	if parent == nil {
+		return
+	}
+	kdfName := "ssh/internal/bcrypt_pbkdf.Key"
+	type cand struct {
+		k    *c39K
+		kdfs []*ssa.Call
+	}
+	var cands []cand
+	for _, g := range withClosures(parent) {
+		k := c.c39Universe(g)
+		kdfs := k.callsNamed(kdfName)
+		tset := map[ssa.Instruction]bool{}
+		for _, call := range kdfs {
+			tset[call] = true
+		}
+		// entry points from which the KDF call is actually run
+		if deepReach(g, edgeSet{}, func(in ssa.Instruction) bool { return tset[in] }) != nil {
+			cands = append(cands, cand{k, kdfs})
+		}
+	}
+	if len(cands) == 0 {
+		c.fail("C39.kdf", "passphrase KDF rounds bound", parent, "bcrypt_pbkdf.Key call not found")
+		return
+	}
+	// the innermost entry points only: a closure's universe is contained in its
+	// parent's when the parent calls it; keep every candidate, each is checked
+	for _, cd := range cands {
+		k := cd.k
+		roundsLoad := func(v ssa.Value) bool {
+			u, ok := v.(*ssa.UnOp)
+			if !ok || u.Op != token.MUL {
+				return false
+			}
+			_, fld, _, ok := fieldOf(u)
+			return ok && fld == "Rounds"
+		}
+		// the decoded round count: a load of the Rounds field of the decoded
+		// options, also after it has been handed back by a helper
+		rounds := func(v ssa.Value) bool {
+			v = k.res(v)
+			if roundsLoad(v) {
+				return true
+			}
+			switch v.(type) {
+			case *ssa.Extract, *ssa.Call:
+			default:
+				return false
+			}
+			n := 0
+			for _, leaf := range k.leavesUnder(v, edgeSet{}) {
+				if _, isConst := leaf.(*ssa.Const); isConst {
+					continue
+				}
+				for {
+					cv, ok := leaf.(*ssa.Convert)
+					if !ok {
+						break
+					}
+					leaf = k.res(cv.X)
+				}
+				if !roundsLoad(leaf) {
+					return false
+				}
+				n++
+			}
+			return n > 0
+		}
+		dom := []int64{0, 1, 16, 2047, 2048, 2049, 4096, 1 << 19, 1<<19 + 1, 1 << 31, 1<<32 - 1}
+		P := func(d int64) bool { return d <= 2048 }
+		bad := ""
+		var at poser = k.root
+		// the round count handed to the KDF is the decoded one
+		for _, call := range cd.kdfs {
+			if len(call.Call.Args) < 3 {
+				bad = "bcrypt_pbkdf.Key call not understood"
+				continue
+			}
+			var roots []ssa.Value
+			c39RoleRoots(call.Call.Args[2], rounds, 0, &roots)
+			if len(roots) == 0 {
+				bad = "the round count passed to bcrypt_pbkdf.Key is not the decoded Rounds field"
+				at = call
+			}
+		}
+		if bad == "" {
+			g := k.gate(k.cmpGate(rounds, dom, P, true))
+			cut := edgeSet{}
+			cut.addAll(g.passAll())
+			tset := map[ssa.Instruction]bool{}
+			for _, call := range cd.kdfs {
+				tset[call] = true
+			}
+			if t := deepReach(k.root, cut, func(in ssa.Instruction) bool { return tset[in] }); t != nil {
+				bad = "bcrypt_pbkdf.Key can run without the decoded round count having been bounded by 2048"
+				at = t
+			}
+			for _, s := range (&c39Run{c: c, k: k}).strays(rounds, dom, []func(int64) bool{P}) {
+				v, tab := s.v, s.tab
+				for i, d := range dom {
+					if !P(d) && tab[i] == tab[4] {
+						bad = fmt.Sprintf("rounds=%d: treated like rounds=2048 by the test at %s, so the KDF is invoked", d, c.posStr(v.Pos()))
+						break
+					}
+					if P(d) && tab[i] != tab[4] {
+						bad = fmt.Sprintf("rounds=%d: treated differently from rounds=2048 by the test at %s", d, c.posStr(v.Pos()))
+						break
+					}
+				}
+				at = v
+			}
+		}
+		c.check(bad == "", "C39.kdf", "passphrase KDF rounds bound", at, "bcrypt_pbkdf runs only for rounds <= 2048", bad)
 	}
 }
 
